@@ -89,6 +89,7 @@ type Stats struct {
 	QCached        int64
 	QModelHit      int64
 	QUnknown       int64
+	QFallback      int64
 	AssertsChecked int64
 	AssertsTrivial int64
 }
@@ -106,6 +107,7 @@ func (s *Stats) add(o *Stats) {
 	s.QCached += o.QCached
 	s.QModelHit += o.QModelHit
 	s.QUnknown += o.QUnknown
+	s.QFallback += o.QFallback
 	s.AssertsChecked += o.AssertsChecked
 	s.AssertsTrivial += o.AssertsTrivial
 }
@@ -118,6 +120,7 @@ type cacheVal struct {
 
 type Explorer struct {
 	solver  *Solver
+	solver2 *Solver // started lazily: consulted when the primary answers unknown
 	budgets Budgets
 
 	// per run
@@ -338,7 +341,7 @@ func (e *Explorer) sat(q *Term, isAssert bool) (SatResult, Model) {
 		} else {
 			e.stats.QFeas++
 		}
-		res, sm = e.solver.Check(asserts, true)
+		res, sm = e.check(asserts)
 		e.cache[key] = cacheVal{res, sm}
 		if res == Unknown {
 			e.stats.QUnknown++
@@ -356,6 +359,24 @@ func (e *Explorer) sat(q *Term, isAssert bool) (SatResult, Model) {
 		merged[k] = v
 	}
 	return Sat, merged
+}
+
+// check discharges one query: the primary solver first, the secondary one
+// (a different solver) when the primary answers unknown or times out.
+func (e *Explorer) check(asserts []*Term) (SatResult, Model) {
+	res, m := e.solver.Check(asserts, true)
+	if res != Unknown {
+		return res, m
+	}
+	if e.solver2 == nil {
+		k := SolverCVC5
+		if e.solver.Kind == SolverCVC5 {
+			k = SolverZ3
+		}
+		e.solver2 = NewSolver(k, e.solver.TimeoutMs*3)
+	}
+	e.stats.QFallback++
+	return e.solver2.Check(asserts, true)
 }
 
 // curModel returns a model of the current path condition (may be nil right
@@ -386,7 +407,7 @@ func (e *Explorer) curModel() Model {
 		return e.model
 	}
 	e.stats.QFeas++
-	res, sm := e.solver.Check(e.pc, true)
+	res, sm := e.check(e.pc)
 	if res == Sat {
 		e.model, e.modelValid = sm, true
 		return sm
@@ -656,7 +677,7 @@ func (e *Explorer) enumerate(t *Term, cap int, what string) []uint64 {
 	status := Sat
 	for {
 		e.stats.QFeas++
-		res, m := e.solver.Check(append(asserts, TrueT), true)
+		res, m := e.check(append(asserts, TrueT))
 		if res == Unsat {
 			break
 		}
